@@ -1699,6 +1699,20 @@ func (r *c11Run) runCase(c *c11Case, rng *RNG) {
 		}
 		// Spec 2: the name of an override yields the replacement on every access path
 		if a.ovIdx >= 0 && rp.ovs[a.ovIdx][0] != "n" && !c11Contains(c.denies, c.ovs[a.ovIdx].name) {
+			// a configuration that overrides a module member AND replaces the module itself
+			// (or an enclosing module) asks for two things that exclude each other: the path to
+			// the member goes through the replaced parent.  The property says nothing about
+			// which of the two wins, so such a member override is not judged (the parent's is).
+			parentReplaced := false
+			for j, o := range c.ovs {
+				if j != a.ovIdx && strings.HasPrefix(c.ovs[a.ovIdx].name, o.name+".") {
+					parentReplaced = true
+				}
+			}
+			if parentReplaced {
+				e.R.H("access", "member override under a replaced parent (conflicting options, not judged)")
+				continue
+			}
 			want := c.ovs[a.ovIdx].val
 			if !c11Same(res, want) {
 				if _, isRes := want.(object.AttrResolver); !isRes {
